@@ -7,7 +7,7 @@ ALL_BE = [0, 1, 2, 3, 4, 5]
 
 
 def oracle_units(chk, progs, backends, tag, proj=emit.KINDS_ALL, steps_fn=None, bfs_depth=6, max_confs=60,
-                 check_result=True, check_post=True, check_flags=False, probe=None, check_introspect=False, check_queue=False, copy_modes=None, opts=None, timeout=45, unwind=6, conf_filter=None, strats=None,
+                 check_result=True, check_post=True, check_flags=False, probe=None, check_introspect=False, check_queue=False, copy_modes=None, ser_states=None, opts=None, timeout=45, unwind=6, conf_filter=None, strats=None,
                  bfs_steps_fn=None, extra_leaf=None, extra_pre=None, cbmc_extra=()):
     for pname in progs:
         my_backends = backends
@@ -28,7 +28,7 @@ def oracle_units(chk, progs, backends, tag, proj=emit.KINDS_ALL, steps_fn=None, 
             confs, edges = model.bfs(prog, bsteps, max_depth=bfs_depth, max_confs=max_confs)
             confs = [c for c in confs if (conf_filter(c[0]) if conf_filter else c[0].started)]
             cpp = emit.emit_cpp(prog, opts)
-            h, index = emit.emit_harness(prog, confs, steps, tag, proj=proj, check_result=check_result, check_post=check_post, check_flags=check_flags, probe=probe, check_introspect=check_introspect, check_queue=check_queue, copy_modes=copy_modes,
+            h, index = emit.emit_harness(prog, confs, steps, tag, proj=proj, check_result=check_result, check_post=check_post, check_flags=check_flags, probe=probe, check_introspect=check_introspect, check_queue=check_queue, copy_modes=copy_modes, ser_states=ser_states,
                                          extra_leaf=extra_leaf, extra_pre=extra_pre)
             chk.model_edges += sum(ix['paths'] for ix in index)
             for be in bes:
@@ -303,6 +303,21 @@ def C15(tier, seed):
     return chk
 
 
+def C16(tier, seed):
+    chk = Check('C16', tier, seed)
+    # save the machine with a verification archive (contract of a Boost.Serialization archive: primitives in call order, classes through
+    # serialize()), load into a second, never started machine object, then drive the loaded machine (and, separately, the original)
+    progs = {'H2': ['S1', 'T2', 'Idle'], 'HIa': ['S2', 'T1', 'A'], 'HIs': ['S3', 'U1']}
+    if tier != 'thorough': progs = {'H2': progs['H2'], 'HIa': progs['HIa']}
+    for pname, ser in progs.items():
+        flt = (lambda c: c.started) if tier == 'thorough' else (lambda c, n=[0]: c.started and (n.__setitem__(0, n[0] + 1) or n[0] <= 10))
+        oracle_units(chk, [pname], [0, 2], 'C16', proj=STD, copy_modes=[4], ser_states=ser,
+                     opts={'second': True, 'serialize': True, 'ser_states': ser, 'defines': ['VF_SERIALIZE 1']},
+                     bfs_depth=7, max_confs=(60 if tier == 'thorough' else 40), conf_filter=flt, timeout=90, strats=['nk', 'nkG'])
+    chk.assumptions.append('C16: the archive is an environment stub (flat int buffer, call order); text/binary formats, versioning, pointer tracking and the registration machinery of the compiled Boost.Serialization library are outside the claim; boost::serialization::base_object is stubbed to return the base sub-object')
+    return chk
+
+
 BP_TYPES = {0: 'Triv<1> (5 bytes)', 1: 'Triv<44>', 2: 'Triv<52> (56 bytes: fills the inline buffer)', 3: 'Triv<53> (60 bytes: heap)',
             4: 'TrivA<8,16> (alignment 16: heap)', 5: 'TrivA<40,64> (alignment 64: heap)', 6: 'Triv<196> (200 bytes: heap)',
             7: 'NonTriv inline (user copy/move/dtor, self pointer)', 8: 'NonTriv 100 bytes (heap)', 9: 'ThrowMove (move not noexcept: heap)'}
@@ -335,4 +350,4 @@ def C20(tier, seed):
     return chk
 
 
-PROPS = {f.__name__: f for f in (C01, C02, C03, C04, C05, C15, C18, C19, C06, C07, C08, C09, C10, C11, C13, C17, C20)}
+PROPS = {f.__name__: f for f in (C01, C02, C03, C04, C05, C15, C16, C18, C19, C06, C07, C08, C09, C10, C11, C13, C17, C20)}
